@@ -204,6 +204,18 @@ class World:
                     obj = cls.from_series(None, temp, tzinfo=frame.index.tz, **kw)
                 else:
                     obj = cls.from_series(meter, temp, **kw)
+            elif entry == "series_hfeed" and hasattr(cls, "from_series"):
+                # a daily meter with an HOURLY weather feed (the feed is the daily temperature plus a diurnal wave)
+                hidx = pd.date_range(frame.index[0], frame.index[-1] + pd.Timedelta(hours=23), freq="h")
+                day = pd.Series(frame["temperature"].to_numpy(), index=frame.index.normalize()).reindex(hidx.normalize()).to_numpy()
+                temp = pd.Series(day + 3.0 * np.sin(2 * np.pi * (hidx.hour.to_numpy() - 9) / 24.0), index=hidx, name="temperature")
+                ev["sig"] += "+hfeed"
+                ev["wx"] += "+hfeed"
+                meter = frame["observed"] if "observed" in frame.columns else None
+                if meter is None and kind == "reporting":
+                    obj = cls.from_series(None, temp, tzinfo=frame.index.tz, **kw)
+                else:
+                    obj = cls.from_series(meter, temp, **kw)
             elif entry == "series" and hasattr(cls, "from_series"):
                 meter = frame["observed"] if "observed" in frame.columns else None
                 obj = cls.from_series(meter, frame["temperature"], **kw)
@@ -380,6 +392,11 @@ class World:
             from opendsm.eemeter.models.daily.utilities.settings import DailySettings
             DailySettings(developer_mode=True, silent_developer_mode=True, cvrmse_threshold=0.3)
             m.HourlyNonSolarSettings(seed=7)
+            # whole model objects with other permitted settings, built and thrown away
+            m.DailyModel(model="legacy", settings={"uncertainty_alpha": 0.3, "weekday_weekend": {
+                1: "weekend", 2: "weekend", 3: "weekday", 4: "weekday", 5: "weekday", 6: "weekday", 7: "weekday"}})
+            m.BillingModel(settings={"uncertainty_alpha": 0.3})
+            m.HourlyModel(settings={"seed": 11, "supplemental_time_series_columns": ["sup_b"]})
         elif k == "otherfit":
             fr, kw = lifecat.build("daily", "baseline", "other")
             b = m.DailyBaselineData(fr, **kw)
@@ -390,6 +407,10 @@ class World:
             mm.predict(m.DailyReportingData(fr2, **kw2), ignore_disqualification=True)
             frb, kwb = lifecat.build("billing", "baseline", "other")
             m.BillingModel(settings={"uncertainty_alpha": 0.2}).fit(m.BillingBaselineData(frb, **kwb), ignore_disqualification=True)
+            # ... and an hourly fit on four months of another meter with a supplemental column and default train features
+            frh, kwh = lifecat.build("hourly", "baseline", "other", supp=True)
+            frh = frh.iloc[: 24 * 125]
+            m.HourlyModel(settings={"seed": 5, "supplemental_time_series_columns": ["sup_b"]}).fit(m.HourlyBaselineData(frh, **kwh), ignore_disqualification=True)
         elif k == "otherhourly":
             fr, kw = lifecat.build("hourly", "baseline", "other")
             b = m.HourlyBaselineData(fr, **kw)
